@@ -371,6 +371,74 @@ impl Modelled for TrS {
     }
 }
 
+/// Zero-sized in memory, but one index byte on the wire.
+#[derive(Encode, Decode, DecodeWithMemTracking, Clone, Copy, Debug, PartialEq, Default)]
+pub enum Unit1 {
+    #[default]
+    Only,
+}
+impl Modelled for Unit1 {
+    fn schema() -> S {
+        S::Enum(vec![(0, vec![])])
+    }
+    fn to_model(&self) -> V {
+        V::Enum(0, vec![])
+    }
+    fn from_model(_: &V) -> Self {
+        Unit1::Only
+    }
+}
+
+/// Zero-sized in memory, index byte 9 on the wire.
+#[derive(Encode, Decode, DecodeWithMemTracking, Clone, Copy, Debug, PartialEq, Default)]
+pub enum Unit9 {
+    #[default]
+    #[codec(index = 9)]
+    Only,
+}
+impl Modelled for Unit9 {
+    fn schema() -> S {
+        S::Enum(vec![(9, vec![])])
+    }
+    fn to_model(&self) -> V {
+        V::Enum(9, vec![])
+    }
+    fn from_model(_: &V) -> Self {
+        Unit9::Only
+    }
+}
+
+/// Transparent newtype with a zero-sized field that still has a wire encoding.
+#[derive(Encode, Decode, DecodeWithMemTracking, Clone, Debug, PartialEq)]
+#[repr(transparent)]
+pub struct TrZ(pub u32, pub Unit1);
+impl Modelled for TrZ {
+    fn schema() -> S {
+        S::Tuple(vec![u32::schema(), Unit1::schema()])
+    }
+    fn to_model(&self) -> V {
+        V::Tuple(vec![self.0.to_model(), self.1.to_model()])
+    }
+    fn from_model(v: &V) -> Self {
+        TrZ(u32::from_model(&v.as_tuple()[0]), Unit1::Only)
+    }
+}
+
+#[derive(Encode, Decode, DecodeWithMemTracking, Clone, Debug, PartialEq)]
+#[repr(transparent)]
+pub struct TrZ2(pub Unit9, pub [u16; 3], pub Unit1);
+impl Modelled for TrZ2 {
+    fn schema() -> S {
+        S::Tuple(vec![Unit9::schema(), <[u16; 3]>::schema(), Unit1::schema()])
+    }
+    fn to_model(&self) -> V {
+        V::Tuple(vec![self.0.to_model(), self.1.to_model(), self.2.to_model()])
+    }
+    fn from_model(v: &V) -> Self {
+        TrZ2(Unit9::Only, <[u16; 3]>::from_model(&v.as_tuple()[1]), Unit1::Only)
+    }
+}
+
 // ---- enums --------------------------------------------------------------------------------
 
 #[derive(Encode, Decode, DecodeWithMemTracking, Clone, Debug, PartialEq)]
@@ -623,8 +691,54 @@ impl Modelled for Chain {
     }
 }
 
+/// Recursive type with a boxed zero-sized marker on every level.
+#[derive(Encode, Decode, DecodeWithMemTracking, Clone, Debug, PartialEq)]
+pub enum MarkChain {
+    End,
+    Link(Box<()>, Box<MarkChain>),
+    Wide(Rc<()>, Vec<MarkChain>),
+}
+
+pub fn markchain_schema() -> S {
+    let t = || S::Named("MarkChain");
+    S::Enum(vec![
+        (0, vec![]),
+        (1, vec![S::Ptr(PtrKind::Box, Box::new(S::Unit)), S::Ptr(PtrKind::Box, Box::new(t()))]),
+        (2, vec![S::Ptr(PtrKind::Rc, Box::new(S::Unit)), S::Seq(SeqKind::Vec, Box::new(t()), size_of::<MarkChain>(), false)]),
+    ])
+}
+
+impl Modelled for MarkChain {
+    fn schema() -> S {
+        S::Named("MarkChain")
+    }
+    fn to_model(&self) -> V {
+        match self {
+            MarkChain::End => V::Enum(0, vec![]),
+            MarkChain::Link(_, b) => V::Enum(1, vec![V::Unit, b.to_model()]),
+            MarkChain::Wide(_, v) => V::Enum(2, vec![V::Unit, V::Seq(v.iter().map(|x| x.to_model()).collect())]),
+        }
+    }
+    fn from_model(v: &V) -> Self {
+        match v {
+            V::Enum(0, _) => MarkChain::End,
+            V::Enum(1, f) => MarkChain::Link(Box::new(()), Box::new(MarkChain::from_model(&f[1]))),
+            V::Enum(2, f) => MarkChain::Wide(Rc::new(()), <Vec<MarkChain>>::from_model(&f[1])),
+            _ => panic!("modelled: MarkChain"),
+        }
+    }
+    fn heap_payload(&self) -> usize {
+        match self {
+            MarkChain::End => 0,
+            MarkChain::Link(_, b) => b.heap_payload(),
+            MarkChain::Wide(_, v) => v.heap_payload(),
+        }
+    }
+}
+
 pub fn registry() -> BTreeMap<&'static str, S> {
     let mut m = BTreeMap::new();
+    m.insert("MarkChain", markchain_schema());
     m.insert("Tree", tree_schema());
     m.insert("Chain", chain_schema());
     m
